@@ -549,9 +549,15 @@ class HTMLBinaryInputStream(HTMLUnicodeInputStream):
             codecs.BOM_UTF32_LE: 'utf-32le', codecs.BOM_UTF32_BE: 'utf-32be'
         }
 
-        # Go to beginning of file and read in 4 bytes
-        string = self.rawStream.read(4)
-        assert isinstance(string, bytes)
+        # Go to beginning of file and read in 4 bytes (a stream may return
+        # fewer bytes than asked for without being at its end)
+        string = b""
+        while len(string) < 4:
+            data = self.rawStream.read(4 - len(string))
+            assert isinstance(data, bytes)
+            if not data:
+                break
+            string += data
 
         # Try detecting the BOM using bytes from the string
         encoding = bomDict.get(string[:3])         # UTF-8
